@@ -15,6 +15,12 @@ C08 driver (repository fields as in Driver/C03Lib).
      -> ok <st revs> <st invs> <st texts> <stackable after T|F>
   sinv <st r i t> <fb r i t>
      -> <stackable T|F>
+  hfetch <exclusion> <find_ghosts T|F> <rev> <src r i t> <st r i t> <fb r i t>
+     -> the hypotheses of the fetch theorems in this state, one T|F each:
+        closed agreeSrcSt agreeFbSrc srcSupplies exclusionLocal topoSrc noOrphanSrc fetchOk | good stackableW
+        completeFb noOrphanFb | after a successful fetch: stackable stackableW tipPresent tipReadable (or `-`)
+  hcommit <rev> <info:parents> <inventory entries> <new texts> <st r i t> <fb r i t>
+     -> fresh parentsSmaller commitCovers commitOk | good stackableW completeFb noOrphanFb
 -/
 namespace BreezyVerif.C08
 
@@ -55,6 +61,23 @@ def handle : List String → String
       let s' := pack ⟨st, fb⟩
       s!"ok {showRepo s'.st} {showBool (stackable s')}"
     | _, _ => "bad-op"
+  | ["hfetch", x, fg, rev, sr, si, stx, lr, li, lt, fr, fi, ft] =>
+    match parseX x, parseBool fg, rev.toNat?, parseRepo sr si stx, parseRepo lr li lt, parseRepo fr fi ft with
+    | some x, some fg, some rev, some src, some st, some fb =>
+      let s : Stacked := ⟨st, fb⟩
+      let b := showBool
+      let pre := s!"{b (fg || closed (both s) src)} {b (agreeOn src.invs s.st.invs)} {b (agreeOn s.fb.invs src.invs)} {b (srcSuppliesM src s (missing fg src (both s) rev))} {b (exclusionLocal x src (missing fg src (both s) rev))} {b (topo src)} {b (noOrphanInv src)} {b (fetchOk x fg src s rev)} | {b (good s)} {b (stackableW s)} {b (complete fb)} {b (noOrphanInv fb)}"
+      match fetchStacked x fg src s rev with
+      | .ok s' => s!"{pre} | {b (stackable s')} {b (stackableW s')} {b (presentRev s' rev)} {b (readable (both s') rev)}"
+      | .error _ => s!"{pre} | -"
+    | _, _, _, _, _, _ => "bad-op"
+  | ["hcommit", k, rec, inv, nt, lr, li, lt, fr, fi, ft] =>
+    match k.toNat?, parseRec rec, parseEntries inv, parseSemi parseText nt, parseRepo lr li lt, parseRepo fr fi ft with
+    | some k, some rec, some inv, some nt, some st, some fb =>
+      let s : Stacked := ⟨st, fb⟩
+      let b := showBool
+      s!"{b (!presentRev s k && (get s.st.invs k).isNone && (get s.fb.invs k).isNone)} {b (rec.parents.all fun p => decide (p < k))} {b (commitCovers s rec inv nt)} {b (commitOk s k rec inv nt)} | {b (good s)} {b (stackableW s)} {b (complete fb)} {b (noOrphanInv fb)}"
+    | _, _, _, _, _, _ => "bad-op"
   | ["sinv", lr, li, lt, fr, fi, ft] =>
     match parseRepo lr li lt, parseRepo fr fi ft with
     | some st, some fb => showBool (stackable ⟨st, fb⟩)
